@@ -30,6 +30,11 @@ rundemo() { # $1 = tree
   return 99
 }
 rundemo "$S/with"; w=$?; rundemo "$S/without"; wo=$?
+if [ $w -eq 0 ] && [ $wo -eq 0 ] && [ -f "$D/demo_test.go" ]; then
+  # some demonstrations (data races) only fail under the race detector
+  rundemo_race() { pkg=$(grep -m1 '^package ' "$D/demo_test.go" | awk '{print $2}'); pkg=${pkg%_test}; cp "$D/demo_test.go" "$1/$pkg/zz_seed_demo_test.go"; (cd "$1" && go test -race -vet=off -count=1 ./$pkg/ >"$S/demo.log" 2>&1); rc=$?; rm -f "$1/$pkg/zz_seed_demo_test.go"; return $rc; }
+  rundemo_race "$S/with"; w=$?; rundemo_race "$S/without"; wo=$?
+fi
 dw=pass; [ $w -ne 0 ] && dw=fail; dwo=pass; [ $wo -ne 0 ] && dwo=fail
 chk=MISSED
 VERIF_REPO="$S/with" VERIF_NO_EVIDENCE=1 "$VERIF/check" "$ID" quick >"$S/out.log" 2>"$S/err.log"; rc=$?
